@@ -6,6 +6,7 @@ import Driver.TextCmd
 import Driver.Tree
 import Driver.Closed
 import Driver.WF
+import Driver.LRF
 namespace Driver
 
 def handle (line : String) : String :=
@@ -22,6 +23,7 @@ def handle (line : String) : String :=
   | some (.atom "eval" :: args) => runEval args
   | some (.atom "gclosed" :: args) => runClosed args
   | some (.atom "wfcheck" :: args) => runWF args
+  | some (.atom "lrfcheck" :: args) => runLRF args
   | some [] => ""
   | _ => "bad-input"
 
